@@ -18,7 +18,7 @@ P = {
                  'any-token exactness) + differential correspondence against the real code with honest, compiled-malicious '
                  'and hand-assembled tokens',
     'drivers': [
-        {'name': 'erc20', 'n': {'quick': 450, 'thorough': 24000}, 'shrink_field': 'ops', 'batch': 6000},
+        {'name': 'erc20', 'n': {'quick': 450, 'thorough': 12000}, 'shrink_field': 'ops', 'batch': 6000},
     ],
     'coq_header': 'From HV Require Import Erc20.PegModel.\nFrom Coq Require Import ZArith NArith List.\nImport ListNotations.',
     'lists': {'cases': {'type': 'N * list (op * obs)', 'check': 'mismatches', 'shard': 60}},
